@@ -11,14 +11,13 @@ REPL = [
  ("  **E1′ region** (C20 only): `//@ region` copies the statements between two\n  anchors of a function and wraps them in a given signature — a\n  substitution-based extraction, reported as such.",
   "  Items declared *inside* a function body are addressed as `wrap_line::CurrLine::reset`.\n  **E1′ region**: `//@ region` copies the statements of a function between two\n  anchors (`from`/`fromafter`/`to`/`until`, `^` = start of the body; also the body of\n  the single `lazy_static!` block of a file) and wraps them in a given signature,\n  optionally returning named locals (`//@tail`); the trailing `,` of a field\n  initialiser is dropped. A substitution-based extraction, reported as such; used\n  for closures, for parts of functions whose remainder is out of reach, and for\n  C20. `optional=1` on a `//@ fn` makes the absence of a function that a repair\n  introduced a non-event (the callers' contracts then decide)."),
  ("**R4** closure with a tuple-pattern parameter", "`//@ litconst` makes the integer literal of a `const` of the source available to the\n  spec text. `//@ghostdefault n: T = v` declares a ghost constant when the body no\n  longer declares the local `n` that contract text names. **R4** closure with a tuple-pattern parameter"),
- ("in a loop body → `if C { } else { REST }` (\"for-loops do not yet support\n  continue\").", "in a loop body → `if C { } else { REST }` (\"for-loops do not yet support\n  continue\"), also when the `if` sits in an if/else chain that is the last\n  statement of the loop body. **R7** `for (i, v) in E.iter().enumerate()` →\n  `for i in 0..E.len() { let v = &E[i];`. **R8** `let v = loop { … break e; … };` →\n  deferred initialisation + plain `break`. **E8′** `self=T` spells out `Self` of a\n  trait-impl method extracted as a free function."),
+ ("in a loop body → `if C { } else { REST }` (\"for-loops do not yet support\n  continue\").", "in a loop body → `if C { } else { REST }` (\"for-loops do not yet support\n  continue\"; **R9**: a labelled `continue 'L` out of an inner loop → flag + `break`,\n  the rest of the outer body under `if !flag`; **R10**: `for x in &v[a..b]` →\n  `for x in vitK: verif_slice(&v, a, b)`, the range check being the helper's `requires`), also when the `if` sits in an if/else chain that is the last\n  statement of the loop body. **R7** `for (i, v) in E.iter().enumerate()` →\n  `for i in 0..E.len() { let v = &E[i];`. **R8** `let v = loop { … break e; … };` →\n  deferred initialisation + plain `break`. **E8′** `self=T` spells out `Self` of a\n  trait-impl method extracted as a free function."),
  ("cannot affect execution). `broadcast use` of the lemma groups named by\n  `//@ broadcast` is inserted at the top of every verified body.", "cannot affect execution). `broadcast use` of the lemma groups named by\n  `//@ broadcast` is inserted at the top of every verified body **and of every loop\n  body** (a function-level `broadcast use` is not in effect inside loops)."),
  ("and are attributed to C03, one per verified function.", "and are attributed to C03, one per verified function. A failed precondition of a\n*lemma of the contract file* called from a verified body is a **proof step** of that\nfunction and is attributed to the properties of the function's own tagged contract."),
  ("  vx/mut.sh confirm_seeds.py   run the checks against a patched scratch copy; confirm and file seeded changes", "  vx/mut.sh confirm_seeds.py seedscan.py   run the checks against a patched scratch copy; confirm and file seeded changes; scan all seeds against all units\n  vx/mkdesign.py     assembles this file (seed table from seeded/*/meta.json)"),
  ("It is therefore **not used** by any\n  registered check (the integer kernels it was planned for verify in Verus in\n  seconds). Consequence: **no check\n  produces a verifier counterexample**; every VIOLATION line ends with\n  `no-failing-input-found` and the replay file carries the failed obligation and\n  Verus' output, as the brief allows.",
   "On the real crate it is therefore not used. **Engine K** (added late, `vx/kani.py`)\n  runs *standalone* `kani file.rs -Z function-contracts` (9 s) on a file generated like\n  a Verus unit: `contracts/K*.rs` carries `#[cfg_attr(kani, kani::requires/ensures(..))]`\n  attributes in front of a `//@ fn … plain=1` directive (the real function text is\n  inserted unchanged), a `proof_for_contract` harness and a `#[cfg(not(kani))] main`. Only\n  loop-free functions go there, so success is a complete proof. On failure the\n  harness inputs are read from CBMC's trace (`--cbmc-args --trace`, bit patterns) and\n  **replayed on the extracted function compiled with rustc**; the VIOLATION line then\n  carries no `no-failing-input-found` suffix. K01 = `compute_distance` (f64, out of\n  Verus' reach). All Verus obligations still end with `no-failing-input-found`: Verus\n  gives no counterexample; the replay file carries the failed obligation and Verus'\n  output, as the brief allows."),
  ("  witnesses/             inputs that fail on the ORIGINAL tree (F01…F25), referenced from known-findings.txt", "  witnesses/             inputs that fail on the ORIGINAL tree (F01…F29), referenced from known-findings.txt"),
- ("in a loop body → `if C { } else { REST }` (\"for-loops do not yet support\n  continue\"), also when", "in a loop body → `if C { } else { REST }` (\"for-loops do not yet support\n  continue\"; **R9**: a labelled `continue 'L` out of an inner loop → flag + `break`,\n  the rest of the outer body under `if !flag`; **R10**: `for x in &v[a..b]` →\n  `for x in vitK: verif_slice(&v, a, b)`, the range check being the helper's `requires`), also when"),
  ("None so far. Guard names reserved in `MANIFEST.hooks`: `kani` (set by cargo-kani)\nfor future `#[cfg(kani)]` harness modules. `/repo` carries only `fix:` commits.",
   "None: no source line of `/repo` is guarded by a flag. Both engines read `/repo/src` as\ntext and verify generated files under `/verif/.work`; `cfg(kani)` exists only inside the\ngenerated K files. `/repo` carries only `fix:` commits (F01-F29)."),
 ]
